@@ -507,6 +507,13 @@ class Interp:
                 i = int(name)
                 return base.fields[i] if i < len(base.fields) else TOP
             return TOP
+        if k in ("ci", "i"):
+            if base.k == "tuple" and k == "ci" and not p[3] and p[1] < len(base.fields):
+                return base.fields[p[1]]
+            if base.k == "obj":
+                idx = ("%s%d" % ("-" if p[3] else "", p[1])) if k == "ci" else show(self.read_local(st, body, p[1]))
+                return mk_obj("%s[%s]" % (base.path, idx), _elem_ty(base.ty))
+            return TOP
         if k == "dc":
             if base.k == "variant":
                 return base
@@ -1074,6 +1081,10 @@ class Interp:
                 return [(st, v)]
         if name == "len" and std and len(args) == 1:
             return [(st, mk_obj("len(%s)" % show(args[0]), "usize"))]
+        if name == "is_empty" and std and len(args) == 1 and (owner.startswith("core::slice") or owner.startswith("core::str")
+                                                               or "slice" in res or owner.startswith("std::vec") or "str" in res):
+            ln = self.as_int(st, mk_obj("len(%s)" % show(args[0]), "usize"))
+            return [(s2, mk_const(1 if tr else 0, "bool")) for s2, tr in self.fork_cmp(st, "eq", ln.lin, Lin.const(0))]
         # panics
         if res.startswith("core::panicking::") or res.startswith("std::rt::begin_panic") or \
                 res in ("std::option::unwrap_failed", "std::result::unwrap_failed", "core::option::expect_failed"):
@@ -1318,6 +1329,14 @@ class _ObjFields(dict):
 
     def get(self, k, d=None):
         return self[k]
+
+
+def _elem_ty(ty):
+    if not ty:
+        return None
+    t = ty.strip().lstrip("&").replace("mut ", "").strip()
+    m = re.match(r"^\[(.+?)(; .*)?\]$", t)
+    return m.group(1) if m else None
 
 
 def _ceil_div(a, b):
